@@ -7,4 +7,12 @@ RULE = ("family `fe` (peer mode): the raw peer answers each request with the cor
         "with random strings, then closes; the frontend may return success only for a conforming reply and then exactly the "
         "decoded value. non-trivial = distinct sessions whose last reply was mutated or random.")
 ASSUMPTIONS = ["fixed-size reply readers do not compare the header's size field with the bytes read (recorded limit, not alarmed)"]
-FAMILIES = [FeFamily(modes=("peer", "mut"), quick=(800, 0, 4000) if False else (0, 800, 4000), thorough=(0, 10000, 100000))]
+class MutFe(FeFamily):
+    def nontrivial(self, line, obs):
+        # the last operation was answered by a scripted reply (mutated or random bytes), i.e. a reply reader ran on it
+        last = line.split(" | ")[-1]
+        m = [t for t in last.split() if t.startswith("r=")]
+        return bool(m) and m[0] not in ("r=-", "r=close")
+
+
+FAMILIES = [MutFe(modes=("peer", "mut"), quick=(800, 0, 4000) if False else (0, 800, 4000), thorough=(0, 10000, 100000))]
